@@ -282,3 +282,11 @@ func (g *HandleRegistry) Count() int {
 	defer g.mu.Unlock()
 	return len(g.All)
 }
+
+func dnsName(s string) certs.Name { return certs.DNSName(s) }
+
+func newKEM() *keys.KEMKeyPair {
+	k, err := keys.GenerateKEMKeyPair(cryptorand.Reader)
+	must(err)
+	return k
+}
